@@ -76,6 +76,10 @@ func (g *Gateway) subscriptionHandler(w http.ResponseWriter, r *http.Request) {
 			recover()
 		}()
 		common.VerifPoint(hvid, "sub.handler.exit")
+		// close all running handlers and the connection, whatever happens to the close frame
+		defer subDict.CleanAll()
+		defer conn.Close()
+
 		// gracefully close connection
 		body := ws.NewCloseFrameBody(ws.StatusNormalClosure, "")
 		frame := ws.NewCloseFrame(body)
@@ -85,13 +89,6 @@ func (g *Gateway) subscriptionHandler(w http.ResponseWriter, r *http.Request) {
 		if _, err := conn.Write(body); err != nil {
 			return
 		}
-
-		// close conn
-		conn.Close()
-
-		common.VerifPoint(hvid, "sub.handler.cleanall")
-		// close all running handlers
-		subDict.CleanAll()
 	}()
 
 	for {
